@@ -87,7 +87,9 @@ func getEnv(kind string) *env {
 	}
 	f := fkit.NewFiler(store)
 	e := &env{kind: kind, dir: dir, f: f, fs: fkit.NewServer(f)}
-	e.mem, _ = store.(*fkit.MemStore)
+	if e.mem, _ = store.(*fkit.MemStore); e.mem != nil {
+		e.mem.CallLimit = 0 // the per-request call budget is a C19 device
+	}
 	envs[kind] = e
 	return e
 }
@@ -661,11 +663,22 @@ func TestChildRename(t *testing.T) {
 	}
 }
 
-var childWatchdog = 20 * time.Second
+const childWatchdog = 20 * time.Second
 
 // runChild performs the rename of sc in a child process of this test binary.
-// failure != "" describes why the rename was not "refused promptly".
+// failure != "" describes why the rename was not "refused promptly". A child
+// that has not answered within the 20 s watchdog is started once more with a 90 s
+// watchdog before the verdict "does not terminate" is given, so that a machine
+// that is merely slow (process start-up under load) does not produce an alarm.
 func runChild(sc scenario) (failure string) {
+	failure, timedOut := runChildOnce(sc, childWatchdog)
+	if timedOut {
+		failure, _ = runChildOnce(sc, 90*time.Second)
+	}
+	return failure
+}
+
+func runChildOnce(sc scenario, watchdog time.Duration) (failure string, timedOut bool) {
 	d := vlib.TempDir()
 	defer os.RemoveAll(d)
 	file := d + "/scenario.json"
@@ -673,7 +686,7 @@ func runChild(sc scenario) (failure string) {
 	if err := os.WriteFile(file, b, 0644); err != nil {
 		panic(err)
 	}
-	ctx, cancel := context.WithTimeout(context.Background(), childWatchdog)
+	ctx, cancel := context.WithTimeout(context.Background(), watchdog)
 	defer cancel()
 	cmd := exec.CommandContext(ctx, os.Args[0], "-test.run=^TestChildRename$", "-test.count=1")
 	for _, kv := range os.Environ() {
@@ -687,35 +700,35 @@ func runChild(sc scenario) (failure string) {
 	cmd.WaitDelay = 2 * time.Second
 	out, err := cmd.CombinedOutput()
 	if ctx.Err() != nil {
-		return fmt.Sprintf("no answer within %v (child killed): the rename neither fails nor finishes", childWatchdog)
+		return fmt.Sprintf("no answer within %v (child killed): the rename neither fails nor finishes", watchdog), true
 	}
 	if err != nil {
 		s := string(out)
 		if i := strings.Index(s, "goroutine stack exceeds"); i >= 0 {
-			return "child crashed with a stack overflow: " + firstLine(s[i:])
+			return "child crashed with a stack overflow: " + firstLine(s[i:]), false
 		}
 		if len(s) > 400 {
 			s = s[len(s)-400:]
 		}
-		return "child died (" + err.Error() + "): " + s
+		return "child died (" + err.Error() + "): " + s, false
 	}
 	rb, err := os.ReadFile(file + ".out")
 	if err != nil {
-		return "child produced no result: " + err.Error()
+		return "child produced no result: " + err.Error(), false
 	}
 	var res childResult
 	if err := json.Unmarshal(rb, &res); err != nil {
-		return "bad child result: " + err.Error()
+		return "bad child result: " + err.Error(), false
 	}
 	if res.Err == "" {
-		return "rename into own descendant reported success"
+		return "rename into own descendant reported success", false
 	}
 	want, _ := json.Marshal(sc.Entries)
 	got, _ := json.Marshal(res.Entries)
 	if string(want) != string(got) {
-		return fmt.Sprintf("rename into own descendant was refused (%s) but changed the tree: before %s after %s", res.Err, want, got)
+		return fmt.Sprintf("rename into own descendant was refused (%s) but changed the tree: before %s after %s", res.Err, want, got), false
 	}
-	return ""
+	return "", false
 }
 
 func firstLine(s string) string {
@@ -920,7 +933,7 @@ func TestPropNamespace(t *testing.T) {
 		v := rapid.SampledFrom(variants).Draw(t, "store")
 		r := newRunner(v.kind, v.bucket, t.Fatalf)
 		nops := rapid.IntRange(4, 24).Draw(t, "nops")
-		childUsed := false
+		childUsed := rapid.IntRange(0, 7).Draw(t, "allowchild") != 0 // a child process is allowed in one case of eight
 		for i := 0; i < nops; i++ {
 			o := op{Tok: "t" + strconv.Itoa(i)}
 			k := rapid.IntRange(0, 19).Draw(t, "op")
@@ -1081,11 +1094,11 @@ func TestPropNamespaceExhaustive(t *testing.T) {
 			plans = append(plans, plan{v.kind, v.bucket, l})
 		}
 	}
-	name := fmt.Sprintf("namespace-sequences(len<=%d on all 7 store variants; %d ops over %d paths)", maxAll, len(ops), len(exPaths))
-	if vlib.Thorough() {
-		plans = append(plans, plan{fkit.LevelDB2, false, maxAll + 1})
-		name = fmt.Sprintf("namespace-sequences(len<=%d on all 7 store variants, len=%d on leveldb2; %d ops over %d paths)", maxAll, maxAll+1, len(ops), len(exPaths))
-	}
+	// On the empty tree a first operation that is a delete or a rename does nothing, so a longer sequence starting
+	// with one is the same history as its tail, which is enumerated as a shorter sequence: sequences of length >= 2
+	// are enumerated with a create as first operation only.
+	plans = append(plans, plan{fkit.LevelDB2, false, maxAll + 1})
+	name := fmt.Sprintf("namespace-sequences(len<=%d on all 7 store variants, len=%d on leveldb2; %d ops over %d paths; first op of longer sequences a create)", maxAll, maxAll+1, len(ops), len(exPaths))
 	idx, owned := 0, 0
 	for _, pl := range plans {
 		n := 1
@@ -1094,14 +1107,17 @@ func TestPropNamespaceExhaustive(t *testing.T) {
 		}
 		seq := make([]op, pl.length)
 		for c := 0; c < n; c++ {
-			idx++
-			if !vlib.ShardOwns(idx) {
-				continue
-			}
 			x := c
 			for i := pl.length - 1; i >= 0; i-- {
 				seq[i] = ops[x%len(ops)]
 				x /= len(ops)
+			}
+			if pl.length > 1 && seq[0].Kind != "mkfile" && seq[0].Kind != "mkdir" {
+				continue
+			}
+			idx++
+			if !vlib.ShardOwns(idx) {
+				continue
 			}
 			owned++
 			runSequence(t, pl.kind, pl.bucket, seq, known, owned%8 == 0)
@@ -1114,6 +1130,11 @@ func TestPropNamespaceExhaustive(t *testing.T) {
 
 func TestFindingRenameIntoDescendant(t *testing.T) {
 	sc := scenario{Kind: fkit.LevelDB2, Root: "/t/probe", Entries: []sEntry{{"/a", true, "x"}, {"/a/f", false, "y"}}, Src: "/a", Dst: "/a/b"}
-	msg := runChild(sc)
+	var msg string
+	if vlib.Known(keyIntoDesc) {
+		msg, _ = runChildOnce(sc, childWatchdog) // listed: one 20 s attempt is enough to say "still there"
+	} else {
+		msg = runChild(sc)
+	}
 	vlib.Finding(t, keyIntoDesc, msg != "", "AtomicRenameEntry(/t/probe/a -> /t/probe/a/b) with a={f} on leveldb2: "+msg)
 }
